@@ -48,16 +48,17 @@ type job struct {
 }
 
 type result struct {
-	Done       bool                 `json:"done"`
-	Counts     map[string]int64     `json:"counts"`
-	Distinct   []string             `json:"distinct"`
-	Violations []*violation         `json:"violations"`
-	ViolCounts map[string]int64     `json:"viol_counts"`
-	SiteHits   map[string]*[3]int64 `json:"site_hits"` // site path -> below / at (accepted) / above (rejected)
-	Inputs     int64                `json:"inputs"`
-	Uniq       int64                `json:"uniq"`
-	Sample     interface{}          `json:"sample,omitempty"`
-	Cases      []interface{}        `json:"cases,omitempty"`
+	Done       bool                        `json:"done"`
+	Counts     map[string]int64            `json:"counts"`
+	Distinct   []string                    `json:"distinct"`
+	Violations []*violation                `json:"violations"`
+	ViolCounts map[string]int64            `json:"viol_counts"`
+	SiteHits   map[string]*[3]int64        `json:"site_hits"` // site path -> below / at (accepted) / above (rejected)
+	LongHits   map[string]map[string]int64 `json:"long_hits"` // site path without maxlen -> boundary length -> round trips
+	Inputs     int64                       `json:"inputs"`
+	Uniq       int64                       `json:"uniq"`
+	Sample     interface{}                 `json:"sample,omitempty"`
+	Cases      []interface{}               `json:"cases,omitempty"`
 }
 
 func main() {
@@ -109,7 +110,7 @@ func parentMain() {
 		if !selected(codecs[i].Name, only) {
 			continue
 		}
-		if nb := len(bigTargets(plans[i], !r.Quick())); nb > 0 {
+		if nb := len(bigTargets(plans[i], !r.Quick(), r.Seed)); nb > 0 {
 			ns := nb // one long value (and its byte strings) per child
 			for s := 0; s < ns; s++ {
 				jobs = append(jobs, job{Codec: i, Kind: "big", Shard: s, NValues: ns})
@@ -129,6 +130,7 @@ func parentMain() {
 
 	var mu sync.Mutex
 	siteHits := map[string]*[3]int64{}
+	longHits := map[string]map[string]int64{}
 	var inputs, uniq int64
 	childCrashes := 0
 	type jobWall struct {
@@ -172,6 +174,16 @@ func parentMain() {
 					}
 					for q := 0; q < 3; q++ {
 						h[q] += v[q]
+					}
+				}
+				for k, v := range out.LongHits {
+					h := longHits[name+":"+k]
+					if h == nil {
+						h = map[string]int64{}
+						longHits[name+":"+k] = h
+					}
+					for l, n := range v {
+						h[l] += n
 					}
 				}
 				inputs += out.Inputs
@@ -257,24 +269,65 @@ func parentMain() {
 			r.Floor(c.Name+".kind.invalid_bool", 10)
 		}
 		limited, hit := 0, 0
+		unlimited, unlimitedHit, wantTrips := 0, 0, 0
+		belowWant, belowGot := 0, 0
 		for _, s := range p.sites {
 			h := siteHits[c.Name+":"+s.Path]
 			if h == nil {
 				h = &[3]int64{}
 			}
-			fields[c.Name+":"+s.Path] = map[string]interface{}{"maxlen": s.MaxLen, "omitempty": s.Omit, "below": h[0], "at_accepted": h[1], "above_rejected": h[2]}
+			entry := map[string]interface{}{"maxlen": s.MaxLen, "omitempty": s.Omit, "below": h[0], "at_accepted": h[1], "above_rejected": h[2]}
+			fields[c.Name+":"+s.Path] = entry
 			if s.MaxLen > 0 {
 				limited++
-				if h[1] > 0 && h[2] > 0 {
+				below := s.MaxLen <= 600 || belowPlanned(s, !r.Quick(), r.Seed) // maxlen-1 is part of this run for the field
+				entry["below_planned"] = below
+				if h[1] > 0 && h[2] > 0 && (h[0] > 0 || !below) {
 					hit++
 				}
+				if below {
+					belowWant++
+					if h[0] > 0 {
+						belowGot++
+					}
+				}
+				continue
 			}
+			// no maxlen tag: every boundary length within the budget was accepted and round-tripped by both codecs
+			lh := longHits[c.Name+":"+s.Path]
+			want, got := 0, 0
+			for _, ln := range unlimitedLens {
+				if longEligible(s, ln) {
+					want++
+					if lh[fmt.Sprint(ln)] > 0 {
+						got++
+					}
+				}
+			}
+			entry["boundary_lengths_wanted"] = want
+			entry["boundary_lengths_roundtrip"] = lh
+			entry["min_element_size"] = s.MinElem
+			if want > 0 {
+				unlimited++
+				wantTrips += want
+				if got == want {
+					unlimitedHit++
+				}
+			}
+		}
+		if unlimited > 0 {
+			r.Count(c.Name+".unlimited_fields_boundary_hit", int64(unlimitedHit))
+			r.Floor(c.Name+".unlimited_fields_boundary_hit", int64(unlimited))
+			r.Floor(c.Name+".unlimited_boundary_roundtrip", int64(wantTrips))
+			r.Count("unlimited_fields_boundary_hit", int64(unlimitedHit))
 		}
 		if limited > 0 {
 			r.Count(c.Name+".maxlen_fields_hit", int64(hit))
 			r.Floor(c.Name+".maxlen_fields_hit", int64(limited))
 			r.Floor(c.Name+".kind.maxlen", 2)
 			r.Floor(c.Name+".encode_maxlen_rejected", int64(limited))
+			r.Count(c.Name+".maxlen_below_accepted", int64(belowGot))
+			r.Floor(c.Name+".maxlen_below_accepted", int64(belowWant))
 		}
 		if r.Get(c.Name+".walker_mismatch") > 0 {
 			r.Inconclusive("harness layout walker disagrees with the reference encoding for " + c.Name)
@@ -288,8 +341,10 @@ func parentMain() {
 	r.Extra("bool_fields_in_codec_types", nb) // 0: ErrInvalidBool is unreachable for the 29 types, no floor on it
 	r.Count("codecs", int64(len(codecs)))
 	r.Floor("codecs", 29)
+	r.Floor("unlimited_fields_boundary_hit", 1) // slice/string fields without a maxlen tag exist and were taken beyond 65535 elements
 
-	r.Finish("For each of the 29 generated codecs: type-directed values (extreme integers, nil/empty slices, lengths 0,1,2,..., maxlen-1/maxlen/maxlen+1 on every limited field, long slices) are encoded by both encoders; "+
+	r.Finish("For each of the 29 generated codecs: type-directed values (extreme integers, nil/empty slices, lengths 0,1,2,..., maxlen-1/maxlen/maxlen+1 on every field with a maxlen tag, "+
+		"255/256/65535/65536/70000 elements on every field without one (tags read by reflection; both codecs must accept and round-trip byte-identically), long slices) are encoded by both encoders; "+
 		"every reference encoding is mutated (all truncations <=512, extensions, length-prefix edits incl. 2^31 and 2^32-1, bit flips, splices) and random strings are added; "+
 		"each byte string is decoded by both decoders in a child process (inputs logged first); every generated decode reads a private scratch copy of the input (with guard bytes behind it) that must be left untouched and is overwritten afterwards, after which the decoded value must still equal the reference value and re-encode to the same bytes; after encoding, the object is rewritten in place (encoded bytes must not change) and the encoded bytes are rewritten (the object must not change). A case is non-trivial when it is a distinct (codec, mutation, reference outcome, exact outcome, length) class.",
 		"the reflection-based encoder (encoder.Serialize/Size/DeserializeRaw/DeserializeRawExact) is the reference; its sentinel errors define the failure kinds",
